@@ -133,9 +133,9 @@ Qed.
 Lemma err_eqb_refl e : err_eqb e e = true.
 Proof. destruct e; reflexivity. Qed.
 
-Lemma echo_val_on c k : truthy (echo_val c k) = echo_on c k.
+Lemma echo_val_on c k : truthy (echo_val c k) = echo_on_r false c k.
 Proof.
-  unfold echo_val, echo_on. destruct (is_True (want c k Dry)); [reflexivity|].
+  unfold echo_val, echo_on_r. destruct (is_True (want c k Dry)); [reflexivity|].
   destruct (is_True (want c k Hide)); reflexivity.
 Qed.
 
@@ -155,9 +155,9 @@ Proof. destruct o; cbn [resolved_of r_opts]; rewrite ?pick_want; reflexivity. Qe
 
 (** * the flagship of part A *)
 Theorem run_meets_spec c parent command k :
-  spec_ok_opts c parent command k (run_model c parent command k) = true.
+  spec_ok_opts_r false c parent command k (run_model c parent command k) = true.
 Proof.
-  unfold spec_ok_opts, run_model. rewrite unify_spec.
+  unfold spec_ok_opts_r, run_model. rewrite unify_spec.
   destruct (rejected c k) as [e|] eqn:RJ.
   - cbn [o_exc o_started o_echo err_opt_eqb]. rewrite err_eqb_refl. reflexivity.
   - rewrite !r_opts_resolved. rewrite echo_val_on.
@@ -244,9 +244,9 @@ Theorem interactions c parent command k :
 Proof.
   intros R out. unfold out, run_model. rewrite unify_spec, R. rewrite !r_opts_resolved, echo_val_on.
   repeat split.
-  - intros H D. unfold echo_on. rewrite D, H. destruct (truthy (want c k Dry)); reflexivity.
+  - intros H D. unfold echo_on_r. rewrite D, H. destruct (truthy (want c k Dry)); reflexivity.
   - apply is_True_truthy in H. rewrite H. reflexivity.
-  - unfold echo_on. rewrite H. rewrite (is_True_truthy _ H). reflexivity.
+  - unfold echo_on_r. rewrite H. rewrite (is_True_truthy _ H). reflexivity.
   - intros A. exists (resolved_of c k). split; [destruct (truthy (want c k Dry)); reflexivity|].
     rewrite r_opts_resolved. unfold hidden_list, hidden, both_unless_given. rewrite A.
     cbn [named_streams resolved_of r_in]. rewrite A. repeat split.
@@ -335,4 +335,55 @@ Proof.
   - rewrite r_opts_resolved.
     destruct (truthy (want c k Disown)), (truthy (want c k Asynchronous)), fails,
       (truthy (want c k Warn)); reflexivity.
+Qed.
+
+(** * the strict reading of "full hiding suppresses echo" (F-C15c) *)
+Lemma spec_readings c parent command k obs :
+  echo_readings_agree c k = true ->
+  spec_ok_opts_r true c parent command k obs = spec_ok_opts_r false c parent command k obs.
+Proof.
+  unfold echo_readings_agree. intros H. apply eqb_prop in H.
+  unfold spec_ok_opts_r. rewrite H. reflexivity.
+Qed.
+
+Theorem run_meets_spec_strict c parent command k :
+  echo_readings_agree c k = true ->
+  spec_ok_opts c parent command k (run_model c parent command k) = true.
+Proof. intros H. unfold spec_ok_opts. rewrite spec_readings by assumption. apply run_meets_spec. Qed.
+
+(** the readings differ exactly for hide='both' with echo asked for and no dry-run *)
+Lemma readings_agree_iff c k :
+  echo_readings_agree c k = false <->
+  (is_True (want c k Dry) = false /\ want c k Hide = OStr "both" /\ truthy (want c k Echo) = true).
+Proof.
+  unfold echo_readings_agree, echo_on_r, fully_hidden.
+  destruct (is_True (want c k Dry)); [split; [discriminate | intros [H _]; discriminate]|].
+  destruct (want c k Hide) as [| [|] | s | | | |]; cbn [is_True];
+    try (split; [try discriminate; destruct (truthy (want c k Echo)); discriminate
+                | intros (_ & H & _); discriminate]).
+  destruct (String.eqb s "both") eqn:E.
+  - apply String.eqb_eq in E. subst s. destruct (truthy (want c k Echo)); split;
+      try discriminate; try (intros (_ & _ & H); discriminate); auto.
+  - split; [destruct (truthy (want c k Echo)); discriminate|].
+    intros (_ & H & _). injection H as ->. discriminate.
+Qed.
+
+Theorem hide_both_echo_refuted :
+  exists c parent command k,
+    rejected c k = None /\ want c k Hide = OStr "both" /\
+    (* both streams are hidden ... *)
+    (exists r, o_res (run_model c parent command k) = Some r /\ r_opts r Hide = OList ["stdout"; "stderr"]) /\
+    (* ... yet the command is echoed *)
+    o_echo (run_model c parent command k) = Some ("RUN ls" ++ String (ascii_of_nat 10) "")%string /\
+    spec_ok_opts c parent command k (run_model c parent command k) = false /\
+    (* while hide=True is silent *)
+    o_echo (run_model c parent command
+                      (mkKw (fun o => match o with Hide => Some (OBool true) | Echo => Some (OBool true)
+                                              | _ => None end) None [])) = None.
+Proof.
+  exists (mkCfg (fun o => match o with EchoFormat => Some (OStr "RUN {command}") | _ => None end) ONone),
+         [], "ls"%string,
+         (mkKw (fun o => match o with Hide => Some (OStr "both") | Echo => Some (OBool true) | _ => None end)
+               None []).
+  vm_compute. repeat split; try reflexivity. eexists. split; reflexivity.
 Qed.
